@@ -173,6 +173,27 @@ def run(ctx, rep, tier):
                 rep.violation("T3", f.decl, f, what, "DEF semantics require %s" % (expect[fname],),
                               key="%s|wrong transform for %s" % (f.short, o))
 
+    # ---- TW: the x and the y topology builders are each other's image --------------------
+    rep.rule("TW", "IncrNetModel::xTopology / yTopology (all-cells and subset forms) are each other's X<->Y image: same calls, members, operators and literals", 1)
+    from .c06 import swap_axis, name_bag
+    _nt = 0
+    for _a in prog.func(CQ + "IncrNetModel::xTopology", required=False) or []:
+        _bs = [b for b in (prog.func(CQ + "IncrNetModel::yTopology", required=False) or []) if len(b.params) == len(_a.params)]
+        if len(_bs) != 1 or _a.body is None or _bs[0].body is None:
+            continue
+        _b = _bs[0]
+        _nt += 1
+        _ba = {swap_axis(k): v for k, v in name_bag(_a).items()}
+        _bb = name_bag(_b)
+        if _ba == _bb:
+            rep.holds("TW", _a.decl, _a, "%s/%d mirrors %s" % (_a.short, len(_a.params), _b.short), "%d distinct names/operators agree" % len(_bb))
+        else:
+            _diff = ["%s: %d vs %d" % (k, _ba.get(k, 0), _bb.get(k, 0)) for k in sorted(set(_ba) | set(_bb)) if _ba.get(k, 0) != _bb.get(k, 0)]
+            rep.violation("TW", _b.decl, _b, "%s/%d is not the X<->Y image of %s" % (_b.short, len(_b.params), _a.short),
+                          "after renaming, uses differ (x form vs y form): %s; the two models then measure different pin positions on one axis and their sum "
+                          "is not the half-perimeter" % "; ".join(_diff[:6]), key="%s/%d|differs from twin" % (_b.short, len(_b.params)))
+    if _nt == 0:
+        rep.unknown("TW", None, None, "IncrNetModel::xTopology / yTopology", "no pair of overloads found (shape changed)")
     check_hpwl(ctx, rep)
     check_w4(ctx, rep)
     check_r5(ctx, rep)
